@@ -207,7 +207,12 @@ class Funcs:
     def flatten(self, node):
         _h('flatten_func')
         self.flatten_calls += 1
-        ch = node.children if hasattr(node, 'children') else list(node)
+        if hasattr(node, 'children'):
+            ch = node.children
+        elif hasattr(node, '__dataclass_fields__'):
+            ch = [getattr(node, name) for name in node.__dataclass_fields__]
+        else:
+            ch = list(node)
         n = len(ch)
         if not hasattr(node, 'aux'):
             node = _NoAux
@@ -255,6 +260,8 @@ class Funcs:
         else:
             rid, aux = metadata
         cls = self.cls
+        if hasattr(cls, '__dataclass_fields__'):
+            return cls(*children)
         if issubclass(cls, tuple):
             children = list(children)
             if hasattr(cls, '_fields'):
